@@ -358,6 +358,13 @@ def probe_layer() -> J:
                                     "table": "tab_bytes"},
                             {"p": "TABLE-STRUCT", "name": "ts", "byte": None, "bit": None, "key": "tk"}],
        "table-bytes-key")
+    # a length key that does not start at bit 0 and shares its byte with another parameter
+    dobjs.append(dop("u5", dct_std("A_UINT32", 5)))
+    dobjs.append(dop("pl_bits", dct_paramlen("A_BYTEFIELD", "LK.p_lenkey_bits.lk")))
+    rq("p_lenkey_bits", [sid(), p_value("flag3", "u3", byte=1, bit=0),
+                         {"p": "LENGTH-KEY", "name": "lk", "byte": 1, "bit": 3, "dop": "u5",
+                          "id": "LK.p_lenkey_bits.lk"},
+                         p_value("data", "pl_bits", byte=2)], "length-key-at-bit-position")
     # 9 DTC
     rq("p_dtc_linked", [sid(), p_value("code", "dtc_linked"), p_value("st", "u8")], "dtc-linked")
     # environment data inside repeated records: every record has its own DTC
